@@ -51,14 +51,16 @@ def main(tier):
         for e in rng_evs:
             f.write(json.dumps(e) + "\n")
     files.append(rpath)
+    _, dn = funcs.survey(chk, files, lambda ev: ev.get("e") in ("Pool", "Range") or ev.get("ret", 99) != 99)
     out = funcs.judge_files(chk, "TraceAddrPool", "TraceAddrPool.cfg", files, "pool",
                             sigfn=lambda ev: "%s:/%s" % (ev.get("e"), ev.get("mask", "")))
     chk.cov["evaluations"] = out["events"]
-    chk.cov["exhaustive"] = "every host position of every subnet size /%d../30" % lo
+    chk.cov["exhaustive"] = True
+    chk.cov["exhaustive_what"] = "every host position of every subnet size /%d../30" % lo
     chk.cov["masks_started"] = [e["mask"] for e in rng_evs if e["started"]]
-    chk.cov["distinct_nontrivial"] = sum(n for (p, n, rc, e), a in zip(prod, argsets) if a[0] != "lookup")
+    chk.cov["distinct_nontrivial"] = dn
     chk.cov["rule"] = ("one evaluation = one init_users() / find_user_by_ip() call or one server start with a given mask, "
-                       "judged by TLC; non-trivial = distinct (server address, mask) pairs")
+                       "judged by TLC; non-trivial = distinct pool / range events and lookups that found an owner")
     chk.assumptions += ["TLC/JVM trusted; find_user_by_ip reads the real clock: ages are kept >= 3 s away from the 60 s boundary"]
     return chk.finish()
 
